@@ -117,13 +117,13 @@ theorem rejected_outside_class (u : Bool) (pack : Nat) (sfp last : Bool) (s : St
   refine ⟨?_, ?_, ?_, ?_⟩
   · intro w sz hb hs hw
     have : w > 8 * sz := hw
-    simp [stepC, hb, hs, this]
+    simp [stepC_eq_ref, stepCRef, hb, hs, this]
   · intro hb hn
-    cases hs : f.size <;> cases hi : f.intlike <;> simp [stepC, hb, hn, hs, hi]
+    cases hs : f.size <;> cases hi : f.intlike <;> simp [stepC_eq_ref, stepCRef, hb, hn, hs, hi]
   · intro w hb hi
-    cases hs : f.size <;> simp [stepC, hb, hi, hs]
+    cases hs : f.size <;> simp [stepC_eq_ref, stepCRef, hb, hi, hs]
   · intro hs hl
-    simp [stepC, hs, hl]
+    simp [stepC_eq_ref, stepCRef, hs, hl]
 
 /-! ### non-vacuity -/
 
